@@ -133,13 +133,22 @@ def build_app(seed):
         types.append(cls)
 
     faults = []
-    for i in range(r.randint(0, 2)):
-        faults.append(type('Err%d' % i, (Fault,),
+    for i in range(r.randint(0, 3)):
+        fbase = Fault
+        if faults and r.random() < .4:
+            fbase = r.choice(faults)       # fault inheritance
+        faults.append(type('Err%d' % i, (fbase,),
                            {'__namespace__': r.choice(nss)}))
     headers = []
     for i in range(r.randint(0, 3)):
-        headers.append(type('Hdr%d' % i, (ComplexModel,), {
-            '__namespace__': r.choice(nss),
+        # now and then two header classes share ONE name in two namespaces
+        hname = 'Hdr0' if (i and r.random() < .3) else 'Hdr%d' % i
+        hns = r.choice(nss)
+        if any(h.__name__ == hname and h.__namespace__ == hns
+                                                        for h in headers):
+            hname = 'Hdr%d' % i
+        headers.append(type(hname, (ComplexModel,), {
+            '__namespace__': hns,
             '_type_info': [('token', Unicode), ('seq', Integer)]}))
 
     summary = {'services': 0, 'methods': 0, 'namespaces': len(nss),
@@ -173,8 +182,19 @@ def build_app(seed):
                 kw['_body_style'] = 'bare'
                 summary['bare'] += 1
             else:
-                args = [r.choice(types) if types and r.random() < .4 else
-                        prim() for _ in range(r.randint(0, 3))]
+                args = []
+                for _ in range(r.randint(0, 3)):
+                    if types and r.random() < .4:
+                        t = r.choice(types)
+                        k = r.random()
+                        if k < .25:
+                            # an anonymous variant of a registered class
+                            t = t.customize(min_occurs=1)
+                        elif k < .4:
+                            t = t.customize(nillable=False)
+                        args.append(t)
+                    else:
+                        args.append(prim())
             ret = r.choice(types + [Unicode, Integer, None,
                                     Array(Unicode)] + types)
             if ret is not None:
@@ -185,6 +205,8 @@ def build_app(seed):
             if r.random() < .2 and '_body_style' not in kw and \
                                             '_operation_name' not in kw:
                 kw['_in_message_name'] = 'In%s' % name
+                if r.random() < .3 and len(nss) > 1:
+                    kw['_in_message_name'] = '{%s}In%s' % (nss[1], name)
                 summary['custom_names'] += 1
             if r.random() < .2 and ret is not None and \
                                                   '_body_style' not in kw:
@@ -337,6 +359,39 @@ def check_document(data, summary):
         elif tag.namespace == SOAP11B and tag.localname in ('header',
                                                       'headerfault'):
             closed(el, 'message', 'message')
+    # names are unique per kind
+    for kind in ('message', 'portType', 'binding', 'service'):
+        names = [e.get('name') for e in root.findall(q(WSDL, kind))]
+        dup = sorted(set(n for n in names if names.count(n) > 1))
+        if dup:
+            V.append(('duplicate|%s' % kind, 'wsdl:%s name(s) %r defined more '
+                      'than once' % (kind, dup)))
+    for msg in root.findall(q(WSDL, 'message')):
+        pn = [p_.get('name') for p_ in msg.findall(q(WSDL, 'part'))]
+        if len(pn) != len(set(pn)):
+            kind = 'same-named-headers' if (msg.get('name') or '').endswith(
+                                                  'HeaderMsg') else 'other'
+            V.append(('duplicate|part|%s' % kind, 'message %s has duplicate '
+                      'part names %r' % (msg.get('name'), pn)))
+    # every operation of a binding exists in the portType the binding implements
+    pts = dict((p_.get('name'), set(o.get('name') for o in
+               p_.findall(q(WSDL, 'operation'))))
+               for p_ in root.findall(q(WSDL, 'portType')))
+    for b in root.findall(q(WSDL, 'binding')):
+        t = b.get('type')
+        if t is None:
+            continue
+        ns_, local, _ = _resolve(b, t)
+        have = pts.get(local)
+        if have is None:
+            continue        # reported by the closure check
+        for o in b.findall(q(WSDL, 'operation')):
+            if o.get('name') not in have:
+                V.append(('operations|binding-op-not-in-portType',
+                          'binding %s implements portType %s but its operation '
+                          '%s is not an operation of that portType' % (
+                              b.get('name'), local, o.get('name'))))
+                break
     # operation completeness
     pt_ops = {}
     for pt in root.findall(q(WSDL, 'portType')):
